@@ -26,7 +26,9 @@ Inductive token :=
 | TPlus | TMinus | TTimes | TDiv
 | TLe | TLt | TGe | TGt | TEq | TNeq                           (* <= < >= > == != *)
 | TNum (n : N)                                                 (* Word(nums): an unsigned integer literal *)
-| TName (s : N).                                               (* identifier (number of the string) *)
+| TName (s : N)                                                (* identifier (number of the string) *)
+(* tokens of the statement layer (Model/AnmlStmt.v); the expression parser stops at them *)
+| TStart | TEnd | TLsq | TRsq | TAssign | TIncrease | TDecrease | TWhen.   (* start end [ ] := :increase :decrease when *)
 (* Not modelled: decimal literals "1.5" (the writer never prints one: reals are printed "(n/d)"), timing words
    start/end/all, assignments, `when`. *)
 
